@@ -523,3 +523,47 @@ VARIANTS += [
       "self.test_indices = [x for x in range(train_size, len(self.decisions))]",
       "self.test_indices = list(range(train_size, len(self.decisions)))", benign=True),
 ]
+
+# ---------------------------------------------------------------------------------------------------- C03
+VARIANTS += [
+    V("c03-m1", "C03", "neighbors", "_Radius._predict_contexts",
+      "indices = np.where(distances_to_row <= self.radius)", "indices = np.where(distances_to_row < self.radius)",
+      "R3.1", why="rows exactly on the radius boundary are dropped"),
+    V("c03-m2", "C03", "neighbors", "_KNearest._predict_contexts",
+      "indices = np.argpartition(distances_to_row, self.k - 1)[:self.k]",
+      "indices = np.argpartition(distances_to_row, self.k)[:self.k]", "R3.2",
+      why="pivot k instead of k-1: the k-th neighbour may be any of the two candidates"),
+    V("c03-m3", "C03", "neighbors", "_KNearest._predict_contexts",
+      "distances_to_row = cdist(self.contexts, row_2d, metric=self.metric).reshape(-1)",
+      "distances_to_row = cdist(self.contexts, row_2d).reshape(-1)", "R3.3", why="configured metric ignored"),
+    V("c03-m4", "C03", "neighbors", "_Neighbors._get_nhood_predictions",
+      "lp.fit(self.decisions[indices], self.rewards[indices], self.contexts[indices])",
+      "lp.partial_fit(self.decisions[indices], self.rewards[indices], self.contexts[indices])", "R3.5",
+      why="worker policy accumulates over rows instead of being trained from scratch"),
+    V("c03-m5", "C03", "neighbors", "_Neighbors._uptake_new_arm", "self.arm_to_expectation[arm] = np.nan", "",
+      "R3.6", why="added arm reports 0 instead of nan (the repaired defect)"),
+    V("c03-m6", "C03", "neighbors", "_Radius._predict_contexts",
+      "if indices[0].size > 0:\n    predictions[index] = self._get_nhood_predictions(lp, indices, row_2d, is_predict)"
+      "\nelse:\n    predictions[index] = self._get_no_nhood_predictions(lp, is_predict)",
+      "if indices[0].size > 1:\n    predictions[index] = self._get_nhood_predictions(lp, indices, row_2d, is_predict)"
+      "\nelse:\n    predictions[index] = self._get_no_nhood_predictions(lp, is_predict)", "R3.6",
+      why="a single neighbour is treated as an empty neighbourhood"),
+    V("c03-m7", "C03", "neighbors", "_Neighbors._get_nhood_predictions",
+      "lp.fit(self.decisions[indices], self.rewards[indices], self.contexts[indices])",
+      "lp.fit(self.decisions[indices], self.rewards, self.contexts[indices])", "R3.5",
+      why="rewards not restricted to the neighbourhood"),
+    V("c03-m8", "C03", "neighbors", "_Neighbors.fit", "self.contexts = contexts",
+      "self.contexts = contexts if self.contexts is None else self.contexts", "R3.4",
+      why="a second fit keeps the old contexts"),
+    V("c03-m9", "C03", "neighbors", "_Neighbors._get_no_nhood_predictions",
+      "rand_int = lp.rng.choice(len(self.arms), size=1, p=self.no_nhood_prob_of_arm)[0]",
+      "rand_int = lp.rng.choice(len(self.arms), size=1)[0]", "R3.6",
+      why="configured empty-neighbourhood distribution ignored"),
+    V("c03-b1", "C03", "neighbors", "_Radius._predict_contexts",
+      "indices = np.where(distances_to_row <= self.radius)", "indices = np.where(self.radius >= distances_to_row)",
+      benign=True),
+    V("c03-b2", "C03", "neighbors", "_KNearest._predict_contexts",
+      "distances_to_row = cdist(self.contexts, row_2d, metric=self.metric).reshape(-1)",
+      "distance_matrix = cdist(self.contexts, row_2d, metric=self.metric)\n"
+      "distances_to_row = distance_matrix.reshape(-1)", benign=True),
+]
